@@ -4,6 +4,7 @@ import CedarVerif.Lemmas.PartialReauth
 import CedarVerif.Lemmas.PartialFull
 import CedarVerif.Lemmas.PartialBridge
 import CedarVerif.Lemmas.PartialSubst5
+import CedarVerif.Lemmas.PartialStore4
 /-
 C13 — partial evaluation with unknowns is sound.  Property theorems only (helpers: Lemmas/Partial*.lean).
 Model: Cedar/Partial.lean (`pinterp`, `PartialResponse`, `reauthorize`).
@@ -425,5 +426,272 @@ example :
         have h1 : partialEvaluate σ (.ofConcrete req) (.ofConcrete []) ⟨"p1", .permit, residualCondition (.unaryApp .not (.binaryApp .mem (.unknown "principal" (some (.entity "User"))) (.lit (.entityUID ⟨"Group", "g"⟩)))), []⟩ = .sat := rfl
         rw [h1]; intro h; cases h)
   exact ⟨rfl, pr2, h1, h2, by decide +kernel⟩
+
+
+/-! ### partial stores, residual contexts, unknown attribute / tag values, template-linked policies -/
+
+/-- **pinterp_sound_store** — `pinterp_sound_subst` for a *partial* store `pes` and a possibly *residual* context.
+`PS.StoreCompletes σ pes es`: the concrete store `es` completes `pes` under σ (known attributes / tags equal; a residual
+attribute or tag value — a direct `Unknown` or a restricted expression with unknowns nested in it — lies in `Frag2 σ` and its
+substitution evaluates to the concrete value; ancestors equal; an entity missing from a concrete-mode store is absent;
+an entity missing from a `.partial()` store is bound by σ to itself through the unknown named by its uid, `PS.Bound`).
+`PS.Concretizes2`: as `Concretizes`, and a residual context (`Context::Residual`) lies in the fragment and its substitution
+evaluates to the concrete context (`PS.CtxCompletes`).
+The conclusion is that of `pinterp_sound_subst`, for the first pass on `pes` (any mapper `m0 ⊆ σ`).  It holds for direct
+`Unknown` attributes (passed through the mapper by `get_attr`) and for unknowns nested inside attribute / tag values alike:
+the *substitution form* does not depend on when an unknown is discovered.
+Caveat for `.partial()` stores: a finite σ binds finitely many uid-named unknowns, so for `partialMode = true` the
+hypothesis `StoreCompletes` (which asks `Bound` for *every* missing uid) is only satisfiable over a finite uid universe; the
+version relativised to the entities actually dereferenced (a closed-world invariant on all values) is not proved.  What
+is proved for a missing entity is exactly: *if* its uid-named unknown is bound to itself, the residuals `unknown(uid).a`,
+`unknown(uid) has a`, `unknown(uid) in …`, `….getTag/hasTag` agree with the concrete store
+(`missing_unbound_counterexample`: without the binding they do not). -/
+theorem pinterp_sound_store (σ : Mapper) (req : Request) (es : Entities) (env : SlotEnv)
+    (hctx : (Value.record req.context).Canon) {e : Expr} (hf : PS.Frag2 σ e)
+    (m0 : Mapper) (preq : PRequest) (pes : PEntities) (n : Nat) (hm : PS.MapLE m0 σ)
+    (hS : PS.StoreCompletes σ pes es) (hC : PS.Concretizes2 σ es preq req) :
+    match pinterp m0 preq pes env n e with
+    | .val v => evaluate req es env (v.toExpr.substUnk σ) = .ok v ∧ evaluate req es env (e.substUnk σ) = .ok v
+    | .err _ => ∃ c, evaluate req es env (e.substUnk σ) = .error c
+    | .res r => PS.Agree (evaluate req es env (r.substUnk σ)) (evaluate req es env (e.substUnk σ))
+    | .fuel => True
+    | .panic => True := by
+  have h := PS.pinterp_sound3 σ req es env hctx m0 preq pes hS hm hC n e hf
+  cases hx : pinterp m0 preq pes env n e with
+  | val v => rw [hx] at h; exact ⟨PS.Y_toExpr σ req es env h.2, h.1⟩
+  | err c => rw [hx] at h; exact h
+  | res r => rw [hx] at h; exact h.1
+  | fuel => trivial
+  | panic => trivial
+
+/-- **pinterp_sound_store_reauth** — the `reauthorize` form for partial stores: the residual of the first pass on `pes`,
+re-interpreted with the mapper σ on the concretised request **and the substituted store `es`** (what the documentation of
+`reauthorize` asks for: "entities … with the unknowns substituted"), agrees with the concrete evaluation; in particular
+no residual is left after this one round.  The hypothesis "second pass on the substituted store" is needed:
+`second_round_needed`. -/
+theorem pinterp_sound_store_reauth (σ : Mapper) (req : Request) (es : Entities) (env : SlotEnv)
+    (hctx : (Value.record req.context).Canon) (hstore : PS.StoreCanon es) {e : Expr} (hf : PS.Frag2 σ e)
+    (m0 : Mapper) (preq : PRequest) (pes : PEntities) (n : Nat) (hm : PS.MapLE m0 σ)
+    (hS : PS.StoreCompletes σ pes es) (hC : PS.Concretizes2 σ es preq req) :
+    match pinterp m0 preq pes env n e with
+    | .val v => evaluate req es env (e.substUnk σ) = .ok v
+    | .err _ => ∃ c, evaluate req es env (e.substUnk σ) = .error c
+    | .res r => ∀ n', Sem (pinterp σ (.ofConcrete req) (.ofConcrete es) env n' r) (evaluate req es env (e.substUnk σ))
+    | .fuel => True
+    | .panic => True := by
+  have h := PS.pinterp_sound3 σ req es env hctx m0 preq pes hS hm hC n e hf
+  cases hx : pinterp m0 preq pes env n e with
+  | val v => rw [hx] at h; exact h.1
+  | err c => rw [hx] at h; exact h
+  | res r => rw [hx] at h; exact fun n' => PS.sem_of_agree (PS.bridge σ req es env hctx hstore h.2.2 n') h.1
+  | fuel => trivial
+  | panic => trivial
+
+/-- non-vacuity of `pinterp_sound_store`: a residual context `{lim: unknown("l")}`, an entity with a *direct* unknown
+    attribute (`level`) and an attribute with a *nested* unknown (`info = {x: unknown("u")}`), an unknown principal;
+    `principal.info == {x: 1} && resource.level < context.lim`.  All hypotheses hold; the first pass leaves a residual. -/
+example :
+    let σ : Mapper := [("principal", .prim (.entityUID ⟨"User", "a"⟩)), ("u", .prim (.int 1)), ("l", .prim (.int 7))]
+    let req : Request := ⟨⟨"User", "a"⟩, ⟨"A", "x"⟩, ⟨"User", "a"⟩, [("lim", .prim (.int 7))]⟩
+    let preq : PRequest := ⟨.unknown (some "User"), .known ⟨"A", "x"⟩, .known ⟨"User", "a"⟩,
+      some (.residual [("lim", .unknown "l" (some .long))])⟩
+    let pes : PEntities := ⟨[(⟨"User", "a"⟩, ⟨[("info", .residual (.record [("x", .unknown "u" none)])),
+      ("level", .residual (.unknown "u" (some .long)))], [], []⟩)], false⟩
+    let es : Entities := [(⟨"User", "a"⟩, ⟨[("info", .record [("x", .prim (.int 1))]), ("level", .prim (.int 1))], [], []⟩)]
+    let e : Expr := .and (.binaryApp .eq (.getAttr (.var .principal) "info") (.record [("x", .lit (.int 1))]))
+                         (.binaryApp .less (.getAttr (.var .resource) "level") (.getAttr (.var .context) "lim"))
+    PS.Frag2 σ e ∧ PS.StoreCompletes σ pes es ∧ PS.Concretizes2 σ es preq req ∧
+    (∃ r, pinterp [] preq pes [] 10 e = .res r) ∧ (⟨"q", .permit, e.substUnk σ, []⟩ : Policy).outcome req es = .sat := by
+  intro σ req preq pes es e
+  have hu : PS.UnkOK σ "u" none := ⟨_, rfl, trivial, by intro t ht; cases ht⟩
+  have hul : PS.UnkOK σ "u" (some .long) := ⟨_, rfl, trivial, by intro t ht; cases ht; rfl⟩
+  have hl : PS.UnkOK σ "l" (some .long) := ⟨_, rfl, trivial, by intro t ht; cases ht; rfl⟩
+  have hrec1 : PS.Frag2 σ (.record [("x", .unknown "u" none)]) := by
+    refine .record (by decide) ?_
+    intro kv hkv; simp only [List.mem_cons, List.not_mem_nil, or_false] at hkv; subst hkv; exact .unknown _ _ hu
+  have hrecL : PS.Frag2 σ (.record [("lim", .unknown "l" (some .long))]) := by
+    refine .record (by decide) ?_
+    intro kv hkv; simp only [List.mem_cons, List.not_mem_nil, or_false] at hkv; subst hkv; exact .unknown _ _ hl
+  have hcan : (Value.record [("x", .prim (.int 1))]).Canon := ⟨⟨(by intro k' h; cases h), trivial⟩, trivial, trivial⟩
+  refine ⟨?_, ?_, ⟨⟨rfl, rfl⟩, rfl, rfl, ⟨hrecL, fun _ _ => rfl⟩⟩, ⟨_, rfl⟩, by decide +kernel⟩
+  · refine .and (.binaryApp .eq (.getAttr "info" (.var _)) (.record (by decide) ?_))
+      (.binaryApp .less (.getAttr "level" (.var _)) (.getAttr "lim" (.var _)))
+    intro kv hkv; simp only [List.mem_cons, List.not_mem_nil, or_false] at hkv; subst hkv; exact .lit _
+  · exact PS.storeCompletes_single _ _ _ rfl
+      (PS.attrsComplete_cons "info" (show PS.AttrCompletes _ _ (.residual _) _ from ⟨hrec1, hcan, fun _ _ => rfl⟩)
+        (PS.attrsComplete_cons "level" (show PS.AttrCompletes _ _ (.residual _) (.prim (.int 1)) from ⟨.unknown _ _ hul, trivial, fun _ _ => rfl⟩)
+          PS.attrsComplete_nil))
+      PS.attrsComplete_nil
+
+/-- the store of `second_round_needed`: `User::"a"` with `info = {x: unknown("u")}` (an unknown *nested* in an attribute
+    value), `level = unknown("u")` (a *direct* unknown attribute) and the tag `t = unknown("u")` -/
+def srPes : PEntities := ⟨[(⟨"User", "a"⟩, ⟨[("info", .residual (.record [("x", .unknown "u" none)])),
+  ("level", .residual (.unknown "u" none))], [], [("t", .residual (.unknown "u" none))]⟩)], false⟩
+/-- … and its completion under `u ↦ 1` -/
+def srEs : Entities := [(⟨"User", "a"⟩, ⟨[("info", .record [("x", .prim (.int 1))]), ("level", .prim (.int 1))], [],
+  [("t", .prim (.int 1))]⟩)]
+def srSigma : Mapper := [("principal", .prim (.entityUID ⟨"User", "a"⟩)), ("u", .prim (.int 1))]
+def srPreq : PRequest := ⟨.unknown (some "User"), .known ⟨"A", "x"⟩, .known ⟨"R", "r"⟩, some (.value [])⟩
+def srReq : Request := ⟨⟨"User", "a"⟩, ⟨"A", "x"⟩, ⟨"R", "r"⟩, []⟩
+def srNested : Policy := ⟨"nested", .permit, .binaryApp .eq (.getAttr (.var .principal) "info") (.record [("x", .lit (.int 1))]), []⟩
+def srDirect : Policy := ⟨"direct", .permit, .binaryApp .eq (.getAttr (.var .principal) "level") (.lit (.int 1)), []⟩
+def srTag : Policy := ⟨"tag", .permit, .binaryApp .eq (.binaryApp .getTag (.var .principal) (.lit (.string "t"))) (.lit (.int 1)), []⟩
+
+/-- the hypotheses of `partial_authorization_sound` hold in the scenario of `second_round_needed` -/
+theorem sr_storeCompletes : PS.StoreCompletes srSigma srPes srEs ∧ PS.Concretizes2 srSigma srEs srPreq srReq := by
+  have hu : PS.UnkOK srSigma "u" none := ⟨_, rfl, trivial, by intro t ht; cases ht⟩
+  have hcan : (Value.record [("x", .prim (.int 1))]).Canon := ⟨⟨(by intro k' h; cases h), trivial⟩, trivial, trivial⟩
+  refine ⟨?_, ⟨rfl, rfl⟩, rfl, rfl, rfl⟩
+  refine PS.storeCompletes_single _ _ _ rfl
+    (PS.attrsComplete_cons "info" (show PS.AttrCompletes _ _ (.residual _) _ from ⟨.record (by decide) ?_, hcan, fun _ _ => rfl⟩)
+      (PS.attrsComplete_cons "level" (show PS.AttrCompletes _ _ (.residual _) (.prim (.int 1)) from ⟨.unknown _ _ hu, trivial, fun _ _ => rfl⟩)
+        PS.attrsComplete_nil))
+    (PS.attrsComplete_cons "t" (show PS.AttrCompletes _ _ (.residual _) (.prim (.int 1)) from ⟨.unknown _ _ hu, trivial, fun _ _ => rfl⟩)
+      PS.attrsComplete_nil)
+  intro kv hkv; simp only [List.mem_cons, List.not_mem_nil, or_false] at hkv; subst hkv; exact .unknown _ _ hu
+
+/-- **second_round_needed** (kernel-checked; the model reproduces the harness observation
+`undiscovered_nested_unknown_second_round`).  Entity `User::"a"` has `info = {x: unknown("u")}` (an unknown *nested* in an
+attribute value); the principal is unknown; σ = {principal ↦ User::"a", u ↦ 1}.  For the policy `principal.info == {x: 1}`
+(concretely: `Allow`):
+  * `reauthorize σ` on the **unsubstituted** store (unknown attributes kept) still leaves the policy residual — `get_attr`
+    maps only a direct `Unknown` through the mapper, any other residual attribute is returned unchanged — so the decision
+    is still undetermined although σ defines every unknown;
+  * a **second** `reauthorize` round (same σ minus the request variables, now concrete) resolves it to `Allow`;
+  * `reauthorize σ` on the **substituted** store gives `Allow` at once (this is `partial_authorization_sound`). -/
+theorem second_round_needed :
+    (isAuthorized srReq srEs [srNested]).decision = .allow ∧
+    (∃ pr2, (isAuthorizedCore [] srPreq srPes [srNested]).reauthorize srSigma srPes = .ok pr2 ∧ pr2.decision = none ∧
+      pr2.residualPermits = [("nested", .and (.lit (.bool true)) (.and (.lit (.bool true)) (.and (.lit (.bool true))
+        (.binaryApp .eq (.record [("x", .unknown "u" none)]) (.record [("x", .lit (.int 1))])))))] ∧
+      ∃ pr3, pr2.reauthorize [("u", .prim (.int 1))] srPes = .ok pr3 ∧ pr3.decision = some .allow) ∧
+    (∃ pr2, (isAuthorizedCore [] srPreq srPes [srNested]).reauthorize srSigma (.ofConcrete srEs) = .ok pr2 ∧
+      pr2.decision = some .allow) :=
+  ⟨by decide +kernel, ⟨_, rfl, by decide +kernel, rfl, _, rfl, by decide +kernel⟩, ⟨_, rfl, by decide +kernel⟩⟩
+
+/-- **direct_unknown_one_round** (kernel-checked): for an attribute that is a *direct* `Unknown` (`principal.level == 1`)
+one `reauthorize` round on the unsubstituted store suffices (`get_attr` passes it through the mapper); for a *tag* that is
+a direct unknown it does not (`getTag` returns the stored partial value as it is) — on the substituted store both are
+resolved. -/
+theorem direct_unknown_one_round :
+    (∃ pr2, (isAuthorizedCore [] srPreq srPes [srDirect]).reauthorize srSigma srPes = .ok pr2 ∧ pr2.decision = some .allow) ∧
+    (∃ pr2, (isAuthorizedCore [] srPreq srPes [srTag]).reauthorize srSigma srPes = .ok pr2 ∧ pr2.decision = none) ∧
+    (∃ pr2, (isAuthorizedCore [] srPreq srPes [srTag]).reauthorize srSigma (.ofConcrete srEs) = .ok pr2 ∧
+      pr2.decision = some .allow) :=
+  ⟨⟨_, rfl, by decide +kernel⟩, ⟨_, rfl, by decide +kernel⟩, ⟨_, rfl, by decide +kernel⟩⟩
+
+/-- **missing_unbound_counterexample** (kernel-checked): for an entity missing from a `.partial()` store it is *not*
+enough that it is absent from the completed store — σ has to bind the unknown named by its uid (to the entity itself).
+`User::"a" has x` on the empty partial store leaves `unknown(User::"a") has x`; with σ = ∅ and the empty concrete store the
+concrete result is `false`, the substituted residual is an error. -/
+theorem missing_unbound_counterexample :
+    let e : Expr := .hasAttr (.lit (.entityUID ⟨"User", "a"⟩)) "x"
+    let r : Expr := .hasAttr (.unknown "User::\"a\"" (some (.entity "User"))) "x"
+    let req : Request := ⟨⟨"User", "b"⟩, ⟨"A", "x"⟩, ⟨"R", "r"⟩, []⟩
+    pinterp [] (.ofConcrete req) ⟨[], true⟩ [] 5 e = .res r ∧
+    evaluate req [] [] (e.substUnk []) = .ok (.prim (.bool false)) ∧
+    evaluate req [] [] (r.substUnk []) = .error .residual ∧
+    -- bound to itself, the residual agrees
+    evaluate req [] [] (r.substUnk [("User::\"a\"", .prim (.entityUID ⟨"User", "a"⟩))]) = .ok (.prim (.bool false)) := by
+  intro e r req
+  exact ⟨rfl, rfl, rfl, rfl⟩
+
+/-- **partial_definite_sound** — "any definite decision of the partial response is the decision obtained for every
+substitution", with explicit, validation-free hypotheses: for a policy set (static or template-linked policies, any slot
+environments) whose conditions lie in `Frag2 σ` and contain no unknown nodes, a partial store completed by `es` under σ, a
+partial request (possibly with a residual context) concretised by σ to `req`: a definite `decision()` of
+`is_authorized_core` is the decision of the concrete authorizer on `(req, es)`; `must_be_determining ⊆` the concrete
+determining policies `⊆ may_be_determining`; and the definitely satisfied / errored / false policies are so concretely
+(`table_sound` with its `Consistent` hypothesis discharged by `pinterp_sound_store`). -/
+theorem partial_definite_sound (σ : Mapper) (req : Request) (es : Entities) (preq : PRequest) (pes : PEntities)
+    (ps : List Policy) (hctx : (Value.record req.context).Canon)
+    (hS : PS.StoreCompletes σ pes es) (hC : PS.Concretizes2 σ es preq req)
+    (hfrag : ∀ p, p ∈ ps → PS.Frag2 σ p.condition ∧ p.condition.unknowns = [])
+    (hfuel1 : ∀ p, p ∈ ps → partialEvaluate [] preq pes p ≠ .stuck) :
+    let pr := isAuthorizedCore [] preq pes ps
+    (∀ d, pr.decision = some d → (isAuthorized req es ps).decision = d) ∧
+    (∀ id, id ∈ pr.mustBeDetermining → id ∈ (isAuthorized req es ps).reasons) ∧
+    (∀ id, id ∈ (isAuthorized req es ps).reasons → id ∈ pr.mayBeDetermining) ∧
+    (∀ id, id ∈ pr.definitelySatisfied → ∃ p, p ∈ ps ∧ p.id = id ∧ p.outcome req es = .sat) ∧
+    (∀ id, id ∈ pr.definitelyErrored → ∃ p, p ∈ ps ∧ p.id = id ∧ p.outcome req es = .err) ∧
+    (∀ id, id ∈ pr.definitelyFalse → ∃ p, p ∈ ps ∧ p.id = id ∧ p.outcome req es = .unsat) := by
+  intro pr
+  have hc : ∀ p, p ∈ ps → Consistent (partialEvaluate [] preq pes p) (p.outcome req es) := fun p hp =>
+    PS.consistent_of_frag3 σ req es hctx preq pes hS hC p (hfrag p hp).1
+      (PS.substUnk_of_noUnk σ _ (hfrag p hp).2) (hfuel1 p hp)
+  obtain ⟨h1, h2, h3, h4, h5, h6⟩ := table_sound [] preq pes ps (fun p => p.outcome req es) hc
+  refine ⟨?_, ?_, ?_, h4, h5, h6⟩
+  · intro d hd; rw [PS.isAuthorized_decision]; exact h1 d hd
+  · intro id hid; rw [PS.isAuthorized_reasons]; exact h2 id hid
+  · intro id hid; rw [PS.isAuthorized_reasons] at hid; exact h3 id hid
+
+/-- **partial_authorization_sound** — the statement of the property at the level of the whole authorizer.  Policy set:
+static and template-linked policies (arbitrary slot environments) whose conditions lie in `Frag2 σ` and contain no unknown
+nodes; partial store `pes` (unknown attribute / tag values, direct or nested) completed by `es` under σ; partial request
+(unknown principal / action / resource, missing or residual context) concretised by σ to `req`; no residual kept a slot
+(`residualPoliciesPanic = false`: otherwise `reauthorize` panics — the recorded finding); `concretize_request` succeeds;
+neither pass exhausts the model's recursion budget.  Then
+  (1) re-authorizing the partial response with σ **on the substituted store** succeeds in ONE round and gives the decision
+      and the determining policies of authorizing the fully concrete request from scratch;
+  (2) any definite decision of the partial response already is that decision, and
+      `must_be_determining ⊆ determining ⊆ may_be_determining`.
+One round suffices because the second pass reads the substituted store; on the unsubstituted store a nested unknown needs
+a second round (`second_round_needed`). -/
+theorem partial_authorization_sound (σ : Mapper) (req : Request) (es : Entities) (preq : PRequest) (pes : PEntities)
+    (ps : List Policy) (hctx : (Value.record req.context).Canon) (hstore : PS.StoreCanon es)
+    (hS : PS.StoreCompletes σ pes es) (hC : PS.Concretizes2 σ es preq req)
+    (hfrag : ∀ p, p ∈ ps → PS.Frag2 σ p.condition ∧ p.condition.unknowns = [])
+    (hreq : (isAuthorizedCore [] preq pes ps).concretizeRequest σ = .ok (.ofConcrete req))
+    (hslot : (isAuthorizedCore [] preq pes ps).residualPoliciesPanic = false)
+    (hfuel1 : ∀ p, p ∈ ps → partialEvaluate [] preq pes p ≠ .stuck)
+    (hfuel2 : ∀ p, p ∈ ps → ∀ q, residualPolicy (partialEvaluate [] preq pes p) p = some q →
+      partialEvaluate σ (.ofConcrete req) (.ofConcrete es) q ≠ .stuck) :
+    let pr := isAuthorizedCore [] preq pes ps
+    (∃ pr2, pr.reauthorize σ (.ofConcrete es) = .ok pr2 ∧
+      pr2.decision = some (isAuthorized req es ps).decision ∧
+      pr2.concretize.decision = (isAuthorized req es ps).decision ∧
+      (∀ id, id ∈ pr2.concretize.reasons ↔ id ∈ (isAuthorized req es ps).reasons)) ∧
+    (∀ d, pr.decision = some d → (isAuthorized req es ps).decision = d) ∧
+    (∀ id, id ∈ pr.mustBeDetermining → id ∈ (isAuthorized req es ps).reasons) ∧
+    (∀ id, id ∈ (isAuthorized req es ps).reasons → id ∈ pr.mayBeDetermining) := by
+  intro pr
+  obtain ⟨h1, h2, h3, _⟩ := partial_definite_sound σ req es preq pes ps hctx hS hC hfrag hfuel1
+  refine ⟨?_, h1, h2, h3⟩
+  exact reauthorize_core σ preq pes ps req es hreq hslot
+    (fun p hp => PS.policyAgrees_of_frag3 σ req es hctx hstore preq pes hS hC p (hfrag p hp).1
+      (PS.substUnk_of_noUnk σ _ (hfrag p hp).2)
+      (fun r hr => PS.noSlot_of_panicFree preq pes ps hslot hp hr) (hfuel2 p hp) (hfuel1 p hp))
+
+/-- non-vacuity of `partial_authorization_sound` / `partial_definite_sound`: the scenario of `second_round_needed` (unknown
+    principal, an entity with nested and direct unknown attributes) with a **template-linked** forbid
+    (`principal == ?principal`, linked to `User::"z"`) next to the nested-unknown permit.  All hypotheses are discharged;
+    the partial decision is undetermined, one `reauthorize` round on the substituted store gives the concrete `Allow`. -/
+example :
+    let linked : Policy := ⟨"linked", .forbid, .binaryApp .eq (.var .principal) (.slot .principal), [(.principal, ⟨"User", "z"⟩)]⟩
+    let ps := [srNested, linked]
+    (isAuthorizedCore [] srPreq srPes ps).decision = none ∧ (isAuthorized srReq srEs ps).decision = .allow ∧
+    ∃ pr2, (isAuthorizedCore [] srPreq srPes ps).reauthorize srSigma (.ofConcrete srEs) = .ok pr2 ∧
+      pr2.decision = some (isAuthorized srReq srEs ps).decision ∧
+      (∀ id, id ∈ pr2.concretize.reasons ↔ id ∈ (isAuthorized srReq srEs ps).reasons) := by
+  intro linked ps
+  have hcan : (Value.record [("x", .prim (.int 1))]).Canon := ⟨⟨(by intro k' h; cases h), trivial⟩, trivial, trivial⟩
+  have hstore : PS.StoreCanon srEs := by
+    intro u d h
+    simp only [srEs, Entities.find?] at h
+    split at h
+    · cases h; exact ⟨⟨hcan, trivial, trivial⟩, trivial, trivial⟩
+    · cases h
+  have hfrag : ∀ p, p ∈ ps → PS.Frag2 srSigma p.condition ∧ p.condition.unknowns = [] := by
+    intro p hp
+    simp only [ps, List.mem_cons, List.not_mem_nil, or_false] at hp
+    rcases hp with rfl | rfl
+    · refine ⟨.binaryApp .eq (.getAttr "info" (.var _)) (.record (by decide) ?_), rfl⟩
+      intro kv hkv; simp only [List.mem_cons, List.not_mem_nil, or_false] at hkv; subst hkv; exact .lit _
+    · exact ⟨.binaryApp .eq (.var _) (.slot _), rfl⟩
+  obtain ⟨hf1, hf2⟩ := PS.fuelOK_spec (σ := srSigma) (req := srReq) (es := srEs) (preq := srPreq) (pes := srPes) (ps := ps)
+    (by decide +kernel)
+  obtain ⟨⟨pr2, h1, h2, _, h4⟩, _⟩ := partial_authorization_sound srSigma srReq srEs srPreq srPes ps ⟨trivial, trivial⟩ hstore
+    sr_storeCompletes.1 sr_storeCompletes.2 hfrag rfl (by decide +kernel) hf1 hf2
+  exact ⟨by decide +kernel, by decide +kernel, pr2, h1, h2, h4⟩
 
 end Cedar.C13
